@@ -47,7 +47,7 @@ theorem identity_from_token (P : SrvCfg) (env : Env) (now : Int) (rb : Bytes) (m
 /-- **valid_token_means** : what "valid" unfolds to — two segments, a header Go can decode whose
     `kid` (absent or empty = POOL) names a key `loadSigningKey` yields, a payload Go can decode,
     `now < exp` when `exp` is present, `iat ≥ now − maxAge` when `iat` is present and a maximum age
-    is in force; a time claim that is not a number refuses the token. -/
+    is in force, `nbf ≤ now` when `nbf` is present; a time claim that is not a number refuses the token. -/
 theorem valid_token_means (P : SrvCfg) (env : Env) (now : Int) (tok key : Bytes) (c : Claims) :
     ValidToken P env now tok key c ↔
     ∃ h p kidv, splitDots tok = [h, p] ∧ env.hdr h = .ok kidv ∧ kidv ≠ .nonStr ∧
@@ -56,7 +56,8 @@ theorem valid_token_means (P : SrvCfg) (env : Env) (now : Int) (tok key : Bytes)
       (match c.iat with
         | .bad => False
         | .num i => ¬ (maxAgeOf P.cfgMaxAge P.envMaxAge > 0 ∧ i < now - maxAgeOf P.cfgMaxAge P.envMaxAge)
-        | .absent => True) :=
+        | .absent => True) ∧
+      (match c.nbf with | .bad => False | .num n => n ≤ now | .absent => True) :=
   Iff.rfl
 
 /-- **possession_server** (clause 1, Dolev–Yao corollary). Let the peer be any party all of whose
@@ -346,6 +347,11 @@ example : verifyIDToken P { env with sigOf := fun _ => .ok (.raw [1]) } 600 clie
 example : verifyIDToken P { env with sigOf := fun _ => .ok (.sign [9] tok) } 600 clientToken = .error .sig := by decide   -- signed by another key
 example : verifyIDToken { P with ks := { dirSet := true } } env 600 clientToken = .error .noKey := by decide
 example : verifyIDToken P env 600 tok = .error .tokFormat := by decide
+
+-- nbf (fix F-C11-nbf-ignored): not yet valid / valid from now on / not a number
+example : checkTiming 600 3600 { nbf := .num 601 } = .error .notYet := by decide
+example : checkTiming 600 3600 { nbf := .num 600 } = .ok () := by decide
+example : checkTiming 600 3600 { nbf := .bad } = .error .badTime := by decide
 
 -- replay: the hypotheses of the two replay theorems are met by the accepted runs above
 example : serverRun P env 700 [5, 9] goodM1 goodM3 ≠ .accept (some [97]) :=
